@@ -20,3 +20,7 @@ add('C07', 'exploration', 'property-based testing + exhaustive cut enumeration; 
     'Conforming peer streams are cut in every way for short streams (all 2^(n-1) compositions), at every single position and octet-by-octet for fixed longer streams, and boundary-directed/randomly for generated streams; the messages a real ContactHandler acts on, the read in which it acts and its buffer occupancy are compared with an independent incremental parser; all message types are round-tripped against the independent codec.',
     'Trusts vlib/ref9174.py; a read = one recv() on the simulated socket; the contact header travels alone; MSG_REJECT octet order taken from the pinned unit test.',
     'DESIGN.md section 3 C07')
+add('C17', 'exploration', 'model-based fuzzing of one real endpoint by a scripted adversarial peer (state-directed message alphabet), exhaustive for short words, Hypothesis beyond',
+    'All words of up to 2/3 out-of-place messages in each protocol phase plus generated longer scripts are played against a real ContactHandler; escaping exceptions are bucketed by (type, innermost repo frame), each listed out-of-place message must be answered by MSG_REJECT/SESS_TERM/close, delivered data is compared with a reference reassembly and the endpoint own transfers must still complete.',
+    'Messages are delivered whole (chunking is C07); adversarial ids never collide with own ids; answers are only required for the cases the property lists.',
+    'DESIGN.md section 3 C17')
